@@ -203,6 +203,18 @@ def run(ctx):
     C15_limits.check(ctx, prog2)
     import C15_pool
     C15_pool.check(ctx, prog2)
+    import C15_drain
+    import C15_drain_replay
+    C15_drain.check(ctx, prog2)
+    try:
+        bad, n = C15_drain_replay.battery()
+        ctx.translator_validated += n
+        if bad:
+            rec = {'name': 'drain.native_battery', 'group': 'C15.drain', 'solver_s': 0.0, 'status': 'cex'}
+            ctx.obligations.append(rec)
+            ctx.handle_cex(rec['name'], 'C15.drain.native', None, lambda _m: {'replayed': True, 'detail': 'real Factory::handle around draining: %s' % bad[:3], 'replay': {'which': 'drain_battery'}}, rec)
+    except RuntimeError as e:
+        ctx.inconclusive.append('drain native battery unavailable: %s' % str(e)[-300:])
 
 
 def concretise(m, v, now):
@@ -469,5 +481,12 @@ def replay_file(path):
         r = C15_pool_replay.replay(rp['rp'])
         print(r['detail'])
         return 1 if r['replayed'] else 0
+    if rp.get('which') in ('drain', 'drain_battery', 'drain_sites'):
+        import C15_drain_replay
+        bad, _n = C15_drain_replay.battery()
+        if rp.get('which') == 'drain':
+            bad += C15_drain_replay.evaluate(rp['rp'])[0]
+        print('native Factory::handle around draining:', bad)
+        return 1 if bad else 0
     print('unknown replay scenario')
     return 2
